@@ -267,10 +267,45 @@ func RunC19(c *engine.Ctx) {
 		}
 		rec(nil)
 	}
+	collisions(c)
 	if SeamOn() {
 		faults(c)
 	}
 	corrupt(c)
+}
+
+// collision alphabet: identifiers that a normalising, truncating or path-cleaning key derivation would map onto one another.
+var collisionIDs = []string{
+	"a", "A", " a", "a ", "a\n", "\ta", "a\x00", "./a", "a/", "a/.", "a//b", "a/b", "a/../a", "a\\b", "é✓", "e\u0301✓", "É✓",
+	strings.Repeat("z", 300), strings.Repeat("z", 300) + "y", strings.Repeat("z", 255), strings.Repeat("z", 256),
+	"a.protobom", "a%2Fb", "a?b", "a#b", "0", "00", "-", "--", ".", "..", "*",
+}
+
+// collisions: every ordered pair of distinct identifiers of the collision alphabet: store under the first, store another
+// document under the second (with and without no-clobber), then both must retrieve their own document.
+func collisions(c *engine.Ctx) {
+	c.Group("identifier-pairs")
+	c.Bound("identifier-pairs", fmt.Sprintf("all %d ordered pairs of %d identifiers that differ only by case, surrounding whitespace, path syntax, unicode normal form, length beyond 255, or a suffix; x both no-clobber settings of the second store", len(collisionIDs)*(len(collisionIDs)-1), len(collisionIDs)))
+	st := startStates[0]
+	for i := range collisionIDs {
+		for j := range collisionIDs {
+			if i == j {
+				continue
+			}
+			for _, nc := range []bool{false, true} {
+				i, j, nc := i, j, nc
+				h := []op{{Kind: "store", Doc: "d1", ID: collisionIDs[i]}, {Kind: "store", Doc: "d2", ID: collisionIDs[j], NoClobber: nc}, {Kind: "retrieve", ID: collisionIDs[i]}, {Kind: "retrieve", ID: collisionIDs[j]}}
+				c.Case(func() any { return map[string]any{"first": collisionIDs[i], "second": collisionIDs[j], "noClobber": nc} }, func(t *engine.T) *engine.Violation {
+					if v := runHistory(t, st, h, 0, nil); v != nil {
+						return v
+					}
+					t.State(fmt.Sprintf("pair|%q|%q|%v", collisionIDs[i], collisionIDs[j], nc))
+					t.Outcome("pair-ok")
+					return nil
+				})
+			}
+		}
+	}
 }
 
 // faults: <=1 injected fault at every step of the last operation of every history of length <=2.
